@@ -497,7 +497,7 @@ func Execute(id, tier string, seed int64, verbose bool) int {
 	{
 		var rest []vm.Violation
 		for _, v := range allViol {
-			if strings.HasPrefix(v.Label, "frame:") || strings.HasPrefix(v.Label, "non-interference:") || v.Label == "terminates" {
+			if strings.HasPrefix(v.Label, "frame:") || strings.HasPrefix(v.Label, "non-interference:") || v.Label == "terminates" || strings.HasPrefix(v.Label, "bounded-recursion:") {
 				monitorViol = append(monitorViol, v)
 			} else {
 				rest = append(rest, v)
@@ -623,13 +623,25 @@ func Execute(id, tier string, seed int64, verbose bool) int {
 		if v.Label == "terminates" {
 			ReplayTimeout = "20s"
 		}
-		nres, rlog, err := NativeReplay(prog, []ReplayCase{rc}, v.Label != "terminates")
+		nres, rlog, err := NativeReplay(prog, []ReplayCase{rc}, strings.HasPrefix(v.Label, "non-interference:"))
 		ReplayTimeout = "20m"
 		raced := strings.Contains(rlog, "DATA RACE")
 		failed := err != nil
 		if v.Label == "terminates" {
 			failed = strings.Contains(rlog, "test timed out")
 			raced = false
+		}
+		if strings.HasPrefix(v.Label, "bounded-recursion:") {
+			// confirmed when the deeply nested input is accepted, or exhausts the (reduced) stack
+			raced = false
+			failed = strings.Contains(rlog, "stack overflow") || strings.Contains(rlog, "goroutine stack exceeds")
+			for _, n := range nres {
+				for _, f := range n.Failed {
+					if f == "deep-nesting-rejected" {
+						failed = true
+					}
+				}
+			}
 		}
 		for _, n := range nres {
 			if len(n.Failed) > 0 || n.Escaped != "" {
